@@ -65,26 +65,27 @@ type c20Event struct {
 }
 
 type c20Harness struct {
-	c        *fw.Case
-	w        *world.World
-	txs      tx3.Store
-	cfgs     cfg3.Store
-	rawTxs   tx3.Store
-	rawCfgs  cfg3.Store
-	tgt      v3.Target
-	txR      *tx3ctl.Reconciler
-	cfR      *cfg3ctl.Reconciler
-	msR      *mst3ctl.Reconciler
-	writes   int
-	crashAt  int
-	crashes  int
-	inStep   bool
-	history  []c20Event
-	prev     map[uint64][4]string
-	trace    []string
-	conn     string
-	changes  map[uint64]map[string]string // values of each change ("" = delete)
-	failed   bool
+	c                                      *fw.Case
+	w                                      *world.World
+	txs                                    tx3.Store
+	cfgs                                   cfg3.Store
+	rawTxs                                 tx3.Store
+	rawCfgs                                cfg3.Store
+	tgt                                    v3.Target
+	txR                                    *tx3ctl.Reconciler
+	cfR                                    *cfg3ctl.Reconciler
+	msR                                    *mst3ctl.Reconciler
+	writes                                 int
+	crashAt                                int
+	crashes                                int
+	inStep                                 bool
+	history                                []c20Event
+	prev                                   map[uint64][4]string
+	trace                                  []string
+	conn                                   string
+	changes                                map[uint64]map[string]string // values of each change ("" = delete)
+	failed                                 bool
+	maxCommittedOrdinal, maxAppliedOrdinal uint64
 }
 
 func (h *c20Harness) beforeWrite(kind string) {
@@ -274,6 +275,11 @@ func (h *c20Harness) observe() {
 	if cfg == nil {
 		return
 	}
+	if uint64(cfg.Committed.Ordinal) < h.maxCommittedOrdinal || uint64(cfg.Applied.Ordinal) < h.maxAppliedOrdinal {
+		h.fail("order/ordinal-decreased", "the configuration's ordinals went backwards: committed %d (was %d), applied %d (was %d)", cfg.Committed.Ordinal, h.maxCommittedOrdinal, cfg.Applied.Ordinal, h.maxAppliedOrdinal)
+		return
+	}
+	h.maxCommittedOrdinal, h.maxAppliedOrdinal = uint64(cfg.Committed.Ordinal), uint64(cfg.Applied.Ordinal)
 	val := func(pv v3.PathValue, ok bool) string {
 		if !ok || pv.Deleted {
 			return ""
@@ -290,7 +296,16 @@ func (h *c20Harness) observe() {
 			}
 		}
 	}
-	if rev := uint64(cfg.Applied.Revision); rev > 0 && h.changes[rev] != nil {
+	applyComplete := func(rev uint64) bool {
+		for _, t := range l {
+			if uint64(t.ID.Index) == rev {
+				return st3(t.Status.Change.Apply) == "Complete"
+			}
+		}
+		return false
+	}
+	// (a revision reached by rolling back its successor holds the applied values only if its own apply completed)
+	if rev := uint64(cfg.Applied.Revision); rev > 0 && h.changes[rev] != nil && applyComplete(rev) {
 		h.c.Count("consistency_applied_checked", 1)
 		for p, want := range h.changes[rev] {
 			pv, ok := cfg.Applied.Values[p]
@@ -515,9 +530,12 @@ func c20Run(c *fw.Case) {
 					key = "termination/after-kill-between-writes"
 				}
 				for _, e := range h.history {
-					if e.Phase == "Rollback" && e.Event == "Commit" && e.Status == "Complete" && e.Index != uint64(t.ID.Index) {
+					if e.Phase == "Rollback" && e.Event == "Commit" && e.Status == "Complete" && e.Index != uint64(t.ID.Index) && cc == "Pending" {
 						key = "termination/change-pending-after-rollback-commit"
 					}
+				}
+				if cc == "Complete" && h.crashes == 0 {
+					key = "termination/change-committed-but-never-applied"
 				}
 				h.fail(key, "Terminates: at the fixed point with the target connected change %d is commit=%s apply=%s", t.ID.Index, cc, ca)
 			}
@@ -563,7 +581,7 @@ func init() {
 		Assumptions: []string{"reconcile steps are atomic except for injected kills before store writes", "the v3 northbound does not exist: the harness plays AppendChange / RollbackChange as spec/Transaction.tla defines them and creates the Configuration record with its mastership status allocated",
 			"history events are derived from the transaction records' status fields (the observable behaviour), not from the configuration writes the spec annotates"},
 		DistinctSet: "abstract_state", CaseTimeout: 300e9,
-		Floors:      map[string]int64{"history_events": 1500, "states_checked": 10000, "consistency_committed_checked": 3000, "crashes_injected": 100, "rollbacks_requested": 100},
+		Floors: map[string]int64{"history_events": 1500, "states_checked": 10000, "consistency_committed_checked": 3000, "crashes_injected": 100, "rollbacks_requested": 100},
 		Cases: func(tier string) int {
 			if tier == "thorough" {
 				return 12000
